@@ -6,7 +6,7 @@ from __future__ import annotations
 import ast
 import re
 
-from ..astutil import call_attr, calls_in, guard_facts, parent_map, unparse, walk_local
+from ..astutil import call_attr, calls_in, guard_facts, parent_map, resolved_guard_facts, unparse, walk_local, text_facts
 from ..cfg import CFG
 from ..dataflow import resolved_text
 from ..report import Finding, Report
@@ -150,7 +150,7 @@ def check_tables(idx: Index, rep: Report) -> None:
             if unparse(rt.value) != expr:
                 bad = f"returns `{unparse(rt.value)}`; the reference realisation is `{expr}`"
                 break
-            facts = [(unparse(t), pol) for t, pol in guard_facts(po.node, rt)]
+            facts = text_facts(po.node, rt)
             def nonneg(v: str) -> bool:
                 return (f"{v} < 0", False) in facts or (f"{v} >= 0", True) in facts
             if is_shift and not nonneg("rhs"):
@@ -234,13 +234,14 @@ def check_fold_guards(idx: Index, rep: Report) -> None:
     for c in units:
         if not may_be_lhs(c.args[0]):
             continue
-        facts = [(unparse(t), p) for t, p in guard_facts(f.node, c)]
+        facts = text_facts(f.node, c)
         if ("self.has_trait(Commutative)", True) in facts:
             r.ok(f.fq + ":left-unit", f"{f.loc} `unit op x -> x` only for commutative operations")
         else:
             r.fail(f.fq + ":left-unit", Finding("C14.R4", f.fq, "left-unit-without-commutativity", f"`{unparse(c)}` tests whether the constant LEFT operand is the operation's right identity without requiring has_trait(Commutative): `0 - x`, `0 << x`, `1 / x` fold to x", f"{AR}:{c.lineno}"))
     rl = [n for n in walk_local(f.node) if isinstance(n, ast.Return) and n.value is not None and unparse(n.value) == "(self.lhs,)"]
-    ok = not rl or all(any("is_right_unit(" in unparse(t) and p for t, p in guard_facts(f.node, x)) for x in rl)
+    cfg4 = CFG(f.node)
+    ok = not rl or all(any("is_right_unit(" in t and p for t, p in resolved_guard_facts(f.node, cfg4, x)) for x in rl)
     (r.ok(f.fq + ":right-unit", f"{f.loc} `x op unit -> x`") if ok else r.fail(f.fq + ":right-unit", Finding("C14.R4", f.fq, "right-unit", "`return (self.lhs,)` must be guarded by is_right_unit(rhs)", f.loc)))
     g = idx.func(CP, "SignlessIntegerBinaryOperationZeroOrUnitRight.match_and_rewrite")
     t = "\n".join(unparse(s) for s in g.node.body)
@@ -263,7 +264,7 @@ def check_cse(idx: Index, rep: Report) -> None:
     if len(calls) != 2:
         raise AnalysisError(f"{f.fq}: expected two replacement sites")
     for c in calls:
-        facts = [(unparse(t), p) for t, p in guard_facts(f.node, c)]
+        facts = text_facts(f.node, c)
         ro = ("is_side_effect_free(op)", False) in facts
         inst = f"{f.fq}:{'read-only' if ro else 'pure'}"
         if ro:
